@@ -125,6 +125,9 @@ func (r *Rig) call(in *In, out *Out) {
 	case "access":
 		rep := s.NFSPROC3_ACCESS(nfstypes.ACCESS3args{Object: fh3(in.Obj), Access: 0x3f})
 		out.Status = uint32(rep.Status)
+		if rep.Status == 0 {
+			out.Attr = postAttr(rep.Resok.Obj_attributes)
+		}
 	case "readlink":
 		rep := s.NFSPROC3_READLINK(nfstypes.READLINK3args{Symlink: fh3(in.Obj)})
 		out.Status = uint32(rep.Status)
